@@ -74,7 +74,7 @@ def main(a):
         print("UNDECIDED property=%s reason=%s" % (pid, e))
         return EXIT_UNDECIDED
     if tier == "quick":
-        harnesses = [h for h in harnesses if h.tier == "quick"]
+        harnesses = [h for h in harnesses if h.tier == "quick" and pid in h.quick_props]
     vunits = [u for u in verus_engine.list_units() if pid in u.props and (tier == "thorough" or u.tier == "quick")]
     if a.only:
         only = set(a.only.split(","))
